@@ -90,10 +90,10 @@ func (e *FnEnc) run() {
 				v := e.vals[p]
 				switch t := p.Type().Underlying().(type) {
 				case *types.Pointer:
-					e.locals = append(e.locals, localRef{e.sorts().CellHeap(t.Elem()).Name, v.T, nil})
+					e.locals = append(e.locals, localRef{e.sorts().CellHeap(t.Elem()).Name, v.T, nil, t.Elem()})
 				case *types.Map:
 					s := e.sorts()
-					e.locals = append(e.locals, localRef{s.MapDom(t.Key()).Name, v.T, nil}, localRef{s.MapVal(t.Key(), t.Elem()).Name, v.T, nil}, localRef{MapLen.Name, v.T, nil})
+					e.locals = append(e.locals, localRef{s.MapDom(t.Key()).Name, v.T, nil, nil}, localRef{s.MapVal(t.Key(), t.Elem()).Name, v.T, nil, nil}, localRef{MapLen.Name, v.T, nil, nil})
 				}
 			}
 			if !found {
@@ -630,6 +630,16 @@ func (e *FnEnc) loopHeader(b *ssa.BasicBlock, li *loopInfo, fwd []*ssa.BasicBloc
 							li.modRefs[hn] = append(li.modRefs[hn], modT{ref: av.T})
 						}
 					}
+					// a local map handed to a call inside the loop (an owned position) may be updated by the callee
+					if mm, ok := a.(*ssa.MakeMap); ok && !li.blocks[mm.Block()] {
+						if mv, ok := e.vals[mm]; ok {
+							mt := mm.Type().Underlying().(*types.Map)
+							sr := e.sorts()
+							for _, hn := range []string{sr.MapDom(mt.Key()).Name, sr.MapVal(mt.Key(), mt.Elem()).Name, MapLen.Name} {
+								li.modRefs[hn] = append(li.modRefs[hn], modT{ref: mv.T})
+							}
+						}
+					}
 				}
 				continue
 			}
@@ -709,13 +719,26 @@ func (e *FnEnc) loopHeader(b *ssa.BasicBlock, li *loopInfo, fwd []*ssa.BasicBloc
 		if strings.HasPrefix(name, "VIS.") || strings.HasPrefix(name, "POS.") || strings.HasPrefix(name, "GH.") {
 			continue
 		}
-		// frame: objects that existed before the loop and are not declared modified keep their value
-		if !mod["*"] {
+		// frame: objects that existed before the loop and are not declared modified keep their value. A function
+		// declared noframe promises no frame anywhere: none is assumed for its loops (and none has to be proved).
+		if !mod["*"] && !(e.con != nil && e.con.NoFrame) {
 			e.assume(e.frameFact(nw, old, li.preAlloc, li.modRefs[name]))
 		} else {
 			for _, l := range e.locals {
 				if l.esc.escapedAt(li.header, 0) {
 					continue // the object may have escaped on an earlier iteration
+				}
+				if fw, ind := e.indirectWrites(li)[name]; l.heap == name && ind {
+					// the loop writes this heap through a pointer / map it loaded: that may be this object. For a
+					// struct, the fields no such store touches keep their value whatever object is hit.
+					if st, isStruct := structOf(l.elem); isStruct && !fw[-1] && !e.writtenInLoop(li, l.ref) {
+						for f := 0; f < st.NumFields(); f++ {
+							if !fw[f] {
+								e.assume(sx("=", e.sorts().GetField(l.elem, sx("select", nw, l.ref), f), e.sorts().GetField(l.elem, sx("select", old, l.ref), f)))
+							}
+						}
+					}
+					continue
 				}
 				if l.heap == name && !e.writtenInLoop(li, l.ref) {
 					e.assume(sx("=", sx("select", nw, l.ref), sx("select", old, l.ref)))
@@ -732,8 +755,14 @@ func (e *FnEnc) loopHeader(b *ssa.BasicBlock, li *loopInfo, fwd []*ssa.BasicBloc
 		envH := e.specEnv(e.cur, e.initState, nil)
 		envH.loopOrd = li.ordinal
 		envH.pre = li.preState
+		li.otherInv = nil
 		for _, c := range lc.Invariants {
 			if !clauseActive(c, e.prop) {
+				// proved under the property it is tagged for; here it only serves as a hypothesis of the loop's frame
+				// obligations (which are proved under every property)
+				if t, err := envH.EvalBool(c.Expr); err == nil {
+					li.otherInv = append(li.otherInv, t)
+				}
 				continue
 			}
 			if t, err := envH.EvalBool(c.Expr); err == nil {
@@ -918,7 +947,7 @@ func (e *FnEnc) backEdge(from *ssa.BasicBlock, li *loopInfo) {
 	mod := e.loopModSet(li)
 	for _, name := range sortedKeys(mod) {
 		hv, ok := e.heapVars[name]
-		if !ok || mod["*"] || name == AllocVar.Name || strings.HasPrefix(name, "VIS.") || strings.HasPrefix(name, "POS.") || strings.HasPrefix(name, "GH.") {
+		if !ok || mod["*"] || (e.con != nil && e.con.NoFrame) || name == AllocVar.Name || strings.HasPrefix(name, "VIS.") || strings.HasPrefix(name, "POS.") || strings.HasPrefix(name, "GH.") {
 			continue
 		}
 		nw := e.heapIn(st, hv)
@@ -927,7 +956,7 @@ func (e *FnEnc) backEdge(from *ssa.BasicBlock, li *loopInfo) {
 			continue
 		}
 		e.oblige(&Obligation{Name: fmt.Sprintf("loop%d.frame.%s@b%d", li.ordinal, name, from.Index), Kind: "frame", Clause: "objects allocated before the loop and not in its modifies clause are unchanged",
-			Guard: g, Goal: e.frameGoal(nw, e.heapIn(li.preState, hv), li.preAlloc, li.modRefs[name])})
+			Guard: and(append([]string{g}, li.otherInv...)...), Goal: e.frameGoal(nw, e.heapIn(li.preState, hv), li.preAlloc, li.modRefs[name])})
 	}
 	e.curGuard, e.cur = saveG, saveC
 }
@@ -1100,7 +1129,8 @@ func (e *FnEnc) lookupName(env *Env, name string, phiOver map[*ssa.Phi]Val) (Val
 					return Val{T: sx("+", v.T, "1"), Ty: tInt}, true
 				}
 			}
-			if name == "#visited" && ci == 0 {
+			if name == "#visited" {
+				// the visited set of this map range, or of the closest enclosing one
 				for _, in := range li.header.Instrs {
 					if nx, ok := in.(*ssa.Next); ok {
 						if hv, ok := e.rangeVis[nx.Iter]; ok && !nx.IsString {
@@ -1441,6 +1471,96 @@ func (e *FnEnc) revealed(name string) bool {
 }
 
 // writtenInLoop: the loop stores through the local allocation with this reference term.
+// indirectWrites: the heap variables the loop writes through an address that is not syntactically a local allocation
+// (a pointer loaded from a cell or field, a map read from a field): such a write may hit any object of that heap.
+func structOf(t types.Type) (*types.Struct, bool) {
+	if t == nil {
+		return nil, false
+	}
+	st, ok := t.Underlying().(*types.Struct)
+	return st, ok
+}
+
+func (e *FnEnc) indirectWrites(li *loopInfo) map[string]map[int]bool {
+	if li.indirect != nil {
+		return li.indirect
+	}
+	out := map[string]map[int]bool{}
+	mark := func(h string, f int) {
+		if out[h] == nil {
+			out[h] = map[int]bool{}
+		}
+		out[h][f] = true
+	}
+	s := e.sorts()
+	directRoot := func(addr ssa.Value) bool {
+		for {
+			switch a := addr.(type) {
+			case *ssa.FieldAddr:
+				addr = a.X
+				continue
+			case *ssa.IndexAddr:
+				if _, isSl := a.X.Type().Underlying().(*types.Slice); isSl {
+					return false
+				}
+				addr = a.X
+				continue
+			case *ssa.Alloc:
+				return true
+			}
+			return false
+		}
+	}
+	mapHeaps := func(m ssa.Value) {
+		if _, direct := m.(*ssa.MakeMap); direct {
+			return
+		}
+		if mt, ok := m.Type().Underlying().(*types.Map); ok {
+			mark(s.MapDom(mt.Key()).Name, -1)
+			mark(s.MapVal(mt.Key(), mt.Elem()).Name, -1)
+			mark(MapLen.Name, -1)
+		}
+	}
+	for b := range li.blocks {
+		for _, in := range b.Instrs {
+			switch i := in.(type) {
+			case *ssa.Store:
+				if !directRoot(i.Addr) {
+					if h := e.staticHeapOf(i.Addr); h != "" {
+						// the field of the root object the store goes to (outermost FieldAddr), or -1
+						f := -1
+						for a := i.Addr; ; {
+							if fa, ok := a.(*ssa.FieldAddr); ok {
+								f = fa.Field
+								a = fa.X
+								continue
+							}
+							if ia, ok := a.(*ssa.IndexAddr); ok {
+								if _, isSl := ia.X.Type().Underlying().(*types.Slice); isSl {
+									f = -1
+									break
+								}
+								a = ia.X
+								continue
+							}
+							break
+						}
+						mark(h, f)
+					}
+				}
+			case *ssa.MapUpdate:
+				mapHeaps(i.Map)
+			case *ssa.Call:
+				if bi, ok := i.Call.Value.(*ssa.Builtin); ok && (bi.Name() == "delete" || bi.Name() == "clear") && len(i.Call.Args) > 0 {
+					mapHeaps(i.Call.Args[0])
+				}
+			}
+		}
+	}
+	li.indirect = out
+	return out
+}
+
 func (e *FnEnc) writtenInLoop(li *loopInfo, ref string) bool {
 	for _, ts := range li.modRefs {
 		for _, t := range ts {
